@@ -81,20 +81,84 @@ def check(goal_neg_parts, timeout_ms=20000, use_coi=True, extra=()):
         rest = [a for a in assum if a.get_id() not in pinned_ids]
         assum = list(ENGINE.pinned) + cone_of_influence(base, rest)
     s = z3.Solver()
-    s.set("timeout", int(timeout_ms))
     for a in assum:
         s.add(a)
     for a in base:
         s.add(a)
     t0 = time.time()
-    r = str(s.check())
+    r, m = _portfolio(s, int(timeout_ms))
     dt = time.time() - t0
     ENGINE.solver_time += dt
     ENGINE.nqueries += 1
-    m = None
-    if r == "sat":
-        m = s.model()
     return r, m, dt, s
+
+
+PORTFOLIO_STATS = {}
+
+
+def _portfolio(s, timeout_ms):
+    """z3 is sensitive to term order on nonlinear queries: try (1) the default solver on a
+    quarter of the budget, (2) simplify/solve-eqs/nlsat pipeline, (3) the same assertions
+    re-parsed in a fresh context, (4) the default solver on the rest.  Only sat/unsat are
+    definite; `unknown` from every engine is reported as unknown."""
+    budget = timeout_ms
+    t_start = time.time()
+
+    def left():
+        return max(200, int(budget - (time.time() - t_start) * 1000))
+    # 1 default, short
+    s.set("timeout", max(500, timeout_ms // 4))
+    r = str(s.check())
+    if r in ("sat", "unsat"):
+        PORTFOLIO_STATS["default"] = PORTFOLIO_STATS.get("default", 0) + 1
+        return r, (s.model() if r == "sat" else None)
+    # 2 tactic pipeline
+    try:
+        t = z3.Then("simplify", "solve-eqs", "purify-arith", "qfnra-nlsat")
+        s2 = t.solver()
+        s2.set("timeout", max(500, min(left(), timeout_ms // 4)))
+        s2.add(s.assertions())
+        r = str(s2.check())
+        if r in ("sat", "unsat"):
+            PORTFOLIO_STATS["nlsat"] = PORTFOLIO_STATS.get("nlsat", 0) + 1
+            return r, (s2.model() if r == "sat" else None)
+    except z3.Z3Exception:
+        pass
+    # 3 re-parsed in a fresh context (different term ids / variable order)
+    try:
+        ctx = z3.Context()
+        s3 = z3.Solver(ctx=ctx)
+        s3.from_string(s.to_smt2())
+        s3.set("timeout", max(500, min(left(), timeout_ms // 4)))
+        r = str(s3.check())
+        if r == "unsat":
+            PORTFOLIO_STATS["reparsed"] = PORTFOLIO_STATS.get("reparsed", 0) + 1
+            return r, None
+        if r == "sat":
+            # bring the model back through the main context by re-solving with the values pinned
+            m3 = s3.model()
+            s.push()
+            try:
+                for d in m3.decls():
+                    if d.arity() == 0:
+                        v = m3[d]
+                        if z3.is_rational_value(v):
+                            s.add(z3.Real(d.name()) == z3.RealVal(str(v)))
+                s.set("timeout", 2000)
+                if str(s.check()) == "sat":
+                    PORTFOLIO_STATS["reparsed"] = PORTFOLIO_STATS.get("reparsed", 0) + 1
+                    return "sat", s.model()
+            finally:
+                s.pop()
+    except z3.Z3Exception:
+        pass
+    # 4 default, rest of the budget
+    s.set("timeout", left())
+    r = str(s.check())
+    if r in ("sat", "unsat"):
+        PORTFOLIO_STATS["default-long"] = PORTFOLIO_STATS.get("default-long", 0) + 1
+        return r, (s.model() if r == "sat" else None)
+    return "unknown", None
 
 
 def to_smt2(solver):
